@@ -7,7 +7,7 @@ git checkout -q -- . ; git clean -fdq crates
 WHERE=$(head -1 $D/where.txt | tr -d '[:space:]')
 RUN=$(head -1 $D/run.txt)
 {
-echo "worktree=$WT seed=$D"
+echo "worktree=$WT seed=$D repo_head=$(git rev-parse --short HEAD)"
 git apply --check $D/patch.diff && echo "apply: ok" || { echo "apply: FAIL"; exit 1; }
 git apply $D/patch.diff
 if cargo build --workspace --offline 2>&1 | tail -1 | grep -q Finished; then echo "build: ok"; else echo "build: FAIL"; fi
